@@ -170,28 +170,30 @@ Proof.
 Qed.
 
 Lemma mlsx_line_name (F name : text) : nosp F -> valid_name name ->
-  fst (parse_mlsx_line (F ++ SP :: name)) = mkp 0 [name].
+  option_map fst (parse_mlsx_line (F ++ SP :: name)) = Some (mkp 0 [name]).
 Proof.
   intros HF Hn. unfold parse_mlsx_line.
   destruct Hn as [Hne [Hd [Hdd [Hc Hs]]]].
   replace (F ++ SP :: name) with ((F ++ [SP]) ++ name) by (rewrite <- app_assoc; reflexivity).
   rewrite (rstrip_app_stable _ name Hne Hs). rewrite <- app_assoc. cbn [app].
-  rewrite (partition_app SP F name HF). cbn [fst].
+  rewrite (partition_app SP F name HF). cbn [negb orb].
+  destruct name as [|c0 name']; [congruence|]. cbn [option_map fst]. f_equal.
   apply parse_seg. apply valid_seg_ok. repeat split; assumption.
 Qed.
 
 (* one line of the MLSD data stream: facts (no space inside), one space, the name, CRLF *)
 Theorem mlsd_name_roundtrip (F name : text) dir : nosp F -> valid_name name ->
-  fst (parse_mlsx_line (F ++ SP :: name ++ eol)) = mkp 0 [name]
-  /\ lister_join dir (fst (parse_mlsx_line (F ++ SP :: name ++ eol)))
-     = mkp (anchor dir) (parts dir ++ [name]).
+  option_map fst (parse_mlsx_line (F ++ SP :: name ++ eol)) = Some (mkp 0 [name])
+  /\ option_map (fun r => lister_join dir (fst r)) (parse_mlsx_line (F ++ SP :: name ++ eol))
+     = Some (mkp (anchor dir) (parts dir ++ [name])).
 Proof.
   intros HF Hn.
-  assert (E : fst (parse_mlsx_line (F ++ SP :: name ++ eol)) = mkp 0 [name]).
+  assert (E : option_map fst (parse_mlsx_line (F ++ SP :: name ++ eol)) = Some (mkp 0 [name])).
   { rewrite <- (mlsx_line_name F name HF Hn). unfold parse_mlsx_line.
     replace (F ++ SP :: name ++ eol) with ((F ++ SP :: name) ++ eol) by (rewrite <- app_assoc; reflexivity).
     rewrite rstrip_eol. reflexivity. }
-  split; [exact E|]. rewrite E. reflexivity.
+  split; [exact E|]. destruct (parse_mlsx_line (F ++ SP :: name ++ eol)) as [[p f]|]; [|discriminate].
+  cbn [option_map fst] in *. injection E as ->. reflexivity.
 Qed.
 
 (* what build_mlsx_string produces has that shape when no fact contains a space *)
@@ -237,27 +239,56 @@ Proof.
   { replace (SP :: F ++ SP :: name) with ((SP :: F ++ [SP]) ++ name)
       by (cbn [app]; rewrite <- app_assoc; reflexivity).
     apply rstrip_app_stable; assumption. }
-  rewrite Hstable, (lstrip_sp_field F (SP :: name) Hne Hws). f_equal.
+  rewrite Hstable, (lstrip_sp_field F (SP :: name) Hne Hws).
   apply mlsx_line_name; [apply nows_nosp; exact Hws|repeat split; assumption].
 Qed.
 
 (* ---- PWD ---- *)
-Definition noquote (s : text) : Prop := forallb (fun c => negb (c =? QUOTE)) s = true.
+Lemma repeat_snoc {A} (x : A) n : repeat x n ++ [x] = x :: repeat x n.
+Proof. induction n as [|n IH]; [reflexivity|]. cbn [repeat app]. rewrite IH. reflexivity. Qed.
 
-Lemma pdr_run d : noquote d -> forall acc rest,
-  pdr (d ++ rest) true O acc = pdr rest true O (rev d ++ acc).
+Lemma odd_double j : Nat.odd (2 * j) = false.
+Proof. rewrite Nat.odd_mul. reflexivity. Qed.
+
+Lemma odd_succ_double j : Nat.odd (S (2 * j)) = true.
+Proof. rewrite Nat.odd_succ, Nat.even_mul. reflexivity. Qed.
+
+(* the loop of parse_directory_response, inside the quoted string, with an EVEN number 2j of
+   pending quotes, run over the doubled string d and the closing quote: it stops at the closing
+   quote (nothing after it is looked at: the break, or the end of the string) and has appended
+   j quotes and exactly d -- whatever d is made of (quotes leading, trailing, in runs) *)
+Lemma pdr_dbl d : forall j acc rest,
+  match rest with [] => True | c :: _ => (c =? QUOTE) = false end ->
+  pdr (dbl d ++ QUOTE :: rest) true (2 * j) acc = acc ++ repeat QUOTE j ++ d.
 Proof.
-  unfold noquote. induction d as [|c d IH]; intros H acc rest; [reflexivity|].
-  cbn [forallb] in H. apply andb_true_iff in H as [Hc Hd]. apply negb_true_iff in Hc.
-  cbn [app pdr negb]. rewrite Hc. rewrite (IH Hd). cbn [rev]. rewrite <- app_assoc. reflexivity.
+  induction d as [|c d IH]; intros j acc rest Hrest.
+  - cbn [dbl flat_map app pdr negb]. change (QUOTE =? QUOTE) with true. cbn match.
+    rewrite app_nil_r. destruct rest as [|c r].
+    + cbn [pdr]. rewrite Nat.div2_succ_double. reflexivity.
+    + cbn [pdr negb]. rewrite Hrest. cbv zeta. rewrite odd_succ_double, Nat.div2_succ_double. reflexivity.
+  - unfold dbl. cbn [flat_map]. fold (dbl d). destruct (c =? QUOTE) eqn:Ec.
+    + apply Z.eqb_eq in Ec. subst c. cbn [app pdr negb]. change (QUOTE =? QUOTE) with true. cbn match.
+      replace (S (S (2 * j))) with (2 * S j)%nat by lia.
+      rewrite (IH (S j) acc rest Hrest). cbn [repeat]. rewrite <- repeat_snoc, <- app_assoc. reflexivity.
+    + cbn [app pdr negb]. rewrite Ec. cbv zeta. rewrite odd_double, Nat.div2_double.
+      pose proof (IH O ((acc ++ repeat QUOTE j) ++ [c]) rest Hrest) as E.
+      cbn [Nat.mul Nat.add] in E. rewrite E. cbn [repeat app].
+      rewrite <- !app_assoc. reflexivity.
 Qed.
 
-Lemma pdr_quoted d : noquote d -> pdr (SP :: QUOTE :: d ++ [QUOTE]) false O [] = d.
+(* the info line of the 257 reply as the client sees it: a space, the quoted doubled string *)
+Lemma pdr_quoted d : pdr (SP :: QUOTE :: dbl d ++ [QUOTE]) false O [] = d.
 Proof.
-  intro H. cbn [pdr negb].
-  change (SP =? QUOTE) with false. cbn [pdr negb]. change (QUOTE =? QUOTE) with true.
-  rewrite (pdr_run d H). cbn [pdr negb]. change (QUOTE =? QUOTE) with true. cbn [pdr].
-  rewrite app_nil_r. apply rev_involutive.
+  cbn [pdr negb]. change (SP =? QUOTE) with false. cbn [pdr negb]. change (QUOTE =? QUOTE) with true.
+  exact (pdr_dbl d O [] [] Logic.I).
+Qed.
+
+(* ... and trailing text after the closing quote (as in 257 <quoted> created) is ignored *)
+Lemma pdr_quoted_trailing d c rest : (c =? QUOTE) = false ->
+  pdr (SP :: QUOTE :: dbl d ++ QUOTE :: c :: rest) false O [] = d.
+Proof.
+  intro Hc. cbn [pdr negb]. change (SP =? QUOTE) with false. cbn [pdr negb]. change (QUOTE =? QUOTE) with true.
+  exact (pdr_dbl d O [] (c :: rest) Hc).
 Qed.
 
 Lemma rstrip_pwd_line d : rstrip (SP :: QUOTE :: d ++ [QUOTE]) = SP :: QUOTE :: d ++ [QUOTE].
@@ -266,40 +297,61 @@ Proof.
   apply rstrip_app_stable; [discriminate|reflexivity].
 Qed.
 
-(* PARTIAL (full statement refuted below): quote-free directory strings round-trip through
-   the PWD reply (server formatter, C06 reply framing, client parser) *)
-Theorem pwd_roundtrip_partial code cwd k :
-  good_code code -> wf cwd -> lf_free (to_str cwd) -> noquote (to_str cwd) ->
+Lemma lf_free_dbl s : lf_free s -> lf_free (dbl s).
+Proof.
+  unfold lf_free, dbl. induction s as [|c s IH]; intro H; [reflexivity|].
+  cbn [forallb] in H. apply andb_true_iff in H as [Hc Hs]. cbn [flat_map]. rewrite forallb_app, (IH Hs), andb_true_r.
+  destruct (c =? QUOTE); cbn [forallb]; [reflexivity|rewrite Hc; reflexivity].
+Qed.
+
+(* what the client's get_current_directory computes from the info line the server formatted *)
+Theorem pwd_line_roundtrip cwd : wf cwd ->
+  parse_directory_response (rstrip (SP :: pwd_info cwd)) = cwd.
+Proof.
+  intro Hwf. unfold pwd_info. rewrite rstrip_pwd_line. unfold parse_directory_response.
+  rewrite pdr_quoted. apply parse_to_str. exact Hwf.
+Qed.
+
+(* FULL: every well-formed directory whose string has no LF -- double quotes anywhere, leading,
+   trailing, doubled, in runs -- round-trips through the PWD reply: server formatter (quotes
+   doubled), C06 reply framing (write_response, readline, parse_response, rstrip), client parser *)
+Theorem pwd_roundtrip code cwd k :
+  good_code code -> wf cwd -> lf_free (to_str cwd) ->
   exists info rest,
     parse_response (split_lines (reply_wire (code, [pwd_info cwd], false) ++ k)) = POk code info rest
     /\ rest = split_lines k
     /\ parse_directory_response (last info []) = cwd.
 Proof.
-  intros Hcode Hwf Hlf Hq.
+  intros Hcode Hwf Hlf.
   assert (Hok : reply_ok (code, [pwd_info cwd], false)).
   { split; [exact Hcode|split; [|cbn; lia]]. constructor; [|constructor].
     unfold pwd_info. apply lf_free_cons; [unfold QUOTE, LF; lia|].
-    apply lf_free_app; [exact Hlf|reflexivity]. }
+    apply lf_free_app; [apply lf_free_dbl; exact Hlf|reflexivity]. }
   eexists. eexists. split; [apply (decode_one _ k Hok)|]. split; [reflexivity|].
-  cbn [fst snd decoded_info split_last last map app]. unfold pwd_info.
-  rewrite rstrip_pwd_line. unfold parse_directory_response. rewrite (pdr_quoted _ Hq).
-  apply parse_to_str. exact Hwf.
+  cbn [fst snd decoded_info split_last last map app].
+  apply pwd_line_roundtrip. exact Hwf.
 Qed.
 
-(* REFUTED for names containing a double quote (code point 34): the server does not double the
-   quote and the client stops at it -- directory a<34>b is reported as /a   (finding F8) *)
-Definition quote_name : text := [97; 34; 98].                    (* a, double quote, b *)
-Lemma quote_name_valid : valid_name quote_name.
-Proof. repeat split; try discriminate. Qed.
-
-Theorem pwd_roundtrip_refuted :
-  exists cwd, valid_path cwd /\
-    parse_directory_response (rstrip (SP :: pwd_info cwd)) <> cwd.
+(* the same for the paths of the property: every valid_path (it is wf and LF-free) *)
+Theorem pwd_roundtrip_valid code cwd k :
+  good_code code -> valid_path cwd ->
+  exists info rest,
+    parse_response (split_lines (reply_wire (code, [pwd_info cwd], false) ++ k)) = POk code info rest
+    /\ rest = split_lines k
+    /\ parse_directory_response (last info []) = cwd.
 Proof.
-  exists (mkp 1 [quote_name]). split.
-  - split; [right; reflexivity|split; [discriminate|]]. constructor; [exact quote_name_valid|constructor].
-  - vm_compute. discriminate.
+  intros Hcode Hv. apply pwd_roundtrip; [exact Hcode|apply valid_path_wf; exact Hv|apply valid_path_lf_free; exact Hv].
 Qed.
+
+(* non-vacuity: the former counterexamples are valid names, and each round-trips *)
+Definition quote_names : list text :=
+  [[97; 34; 98]; [34]; [34; 34]; [120; 34]; [34; 120]; [34; 34; 34]; [34; 97; 34; 34; 98; 34]].
+
+Lemma quote_names_valid : Forall valid_name quote_names.
+Proof. repeat constructor; try discriminate. Qed.
+
+Lemma quote_path_valid : valid_path (mkp 1 quote_names).
+Proof. split; [right; reflexivity|split; [discriminate|exact quote_names_valid]]. Qed.
 
 (* ---- LIST fallback ---- *)
 Lemma index_field (f Y : text) : nosp f -> index_of SP (f ++ SP :: Y) = Some (length f).
@@ -386,7 +438,7 @@ Proof.
     unfold strip.
     replace (SP :: name) with ([SP] ++ name) by reflexivity.
     rewrite (rstrip_app_stable [SP] name Hne Hst). cbn [app lstrip]. rewrite sp_space, Hlead.
-    reflexivity. }
+    destruct name as [|c0 name']; [congruence|]. reflexivity. }
   split; [exact G|]. unfold list_parse. rewrite G. f_equal. apply parse_seg, valid_seg_ok. exact Hn.
 Qed.
 
